@@ -168,6 +168,7 @@ impl<'tcx> Runner<'tcx> {
                     let prod = job.opts.get(kind).cloned().unwrap_or_else(|| "from_bytes".to_string());
                     let v = self.key_value(kind, &prod, module);
                     let v = self.tag_key_fields(v, *inner, kind);
+                    let v = if job.opts.contains_key("atoms.key") { self.atomize_key(st, v, *inner, kind) } else { v };
                     let p = self.new_input(st, name, v);
                     return Val::Ref(p);
                 }
@@ -212,6 +213,45 @@ impl<'tcx> Runner<'tcx> {
                 self.shape_ints(st, job, &key, v)
             }
         }
+    }
+
+    /// LIN tier (`atoms.key=1`): every i32 leaf of a key struct handed to a consumer becomes a named symbol
+    /// `<kind>.<field>[i]` (i counts the leaves of that field), keeping its interval
+    fn atomize_key(&mut self, st: &mut State, v: Val, t: ty::Ty<'tcx>, kind: &str) -> Val {
+        let names: Vec<String> = match t.kind() {
+            ty::Adt(adt, _) if adt.is_struct() => adt.non_enum_variant().fields.iter().map(|f| f.name.to_string()).collect(),
+            _ => return v,
+        };
+        let Val::Tuple(fs) = &v else { return v };
+        if fs.len() != names.len() {
+            return v;
+        }
+        let saved = self.big_atoms;
+        self.big_atoms = true;
+        let mut out = Vec::new();
+        for (f, nm) in fs.iter().zip(names.iter()) {
+            let mut counter = 0usize;
+            let key = format!("{}.{}", kind, nm);
+            let nf = self.map_ints(st, f, &mut |me: &mut Self, st: &mut State, i: &IntV| {
+                if i.ty.bits <= 8 {
+                    return i.clone();
+                }
+                let a = me.ip.fresh_atom(st, i.lo, i.hi, None);
+                me.ip.atom_names.insert(a, format!("{}[{}]", key, counter));
+                counter += 1;
+                let mut n = IntV::new(i.lo, i.hi, i.ty);
+                n.taint = i.taint;
+                n.lin = Some(Rc::new(Lin::atom(a)));
+                n
+            });
+            // map_ints rebuilds arrays without provenance: keep the tag of byte fields
+            out.push(match (f.tag_of(), &nf) {
+                (Some(t), Val::Arr(_)) => nf.with_tag(&t),
+                _ => nf,
+            });
+        }
+        self.big_atoms = saved;
+        Val::Tuple(Rc::new(out))
     }
 
     /// key structs handed to a consumer: every array field is an exact copy of `<kind>.<field name>`
@@ -637,9 +677,11 @@ pub fn run<'tcx>(tcx: TyCtxt<'tcx>) -> String {
         rn.ip.atomize = job.opts.get("atomize").map(|s| s.split('|').map(|x| x.to_string()).collect()).unwrap_or_default();
         rn.ip.atomize_count.clear();
         rn.ip.prod_atoms.clear();
+        rn.ip.dump_args_count.clear();
         rn.ip.dump_args_pats = job.opts.get("dump_args").map(|s| s.split('|').map(|x| x.to_string()).collect()).unwrap_or_default();
         rn.ip.ident_pats = job.opts.get("identity").map(|s| s.split('|').map(|x| x.to_string()).collect()).unwrap_or_default();
         rn.ip.track_ret = job.opts.get("track_ret").map(|s| s.split('|').map(|x| x.to_string()).collect()).unwrap_or_default();
+        rn.ip.loopcut = job.opts.get("loopcut").map(|s| s.split('|').filter_map(|x| x.rsplit_once(':').and_then(|(f, n)| Some((f.to_string(), n.parse::<u32>().ok()?)))).collect()).unwrap_or_default();
         rn.ip.probe_pats = job.opts.get("probe").map(|s| s.split('|').map(|x| x.to_string()).collect()).unwrap_or_default();
         let steps0 = rn.ip.steps;
         let probes0 = rn.ip.probes.len();
